@@ -1,4 +1,5 @@
 import gfapy
+import math
 
 class NumericArray(list):
   """
@@ -79,7 +80,11 @@ class NumericArray(list):
     -------
     one of gfapy.NumericArray.SUBTYPE
     """
-    if all([ isinstance(f, float) for f in self]):
+    if all([isinstance(f, float) for f in self]):
+      if not all([math.isfinite(f) for f in self]):
+        raise gfapy.ValueError(
+          "NumericArray contains non-finite values\n"+
+          "Content: {}".format(repr(self)))
       return "f"
     else:
       e_max = None
@@ -215,6 +220,9 @@ class NumericArray(list):
             e = float(e)
           except:
             raise gfapy.ValueError("Value is not valid: {}\n".format(e)+
+                "Numeric array string: {}".format(string))
+          if not valid and not math.isfinite(e):
+            raise gfapy.ValueError("Value is not finite: {}\n".format(e)+
                 "Numeric array string: {}".format(string))
           yield e
     return cls(list(gen()))
